@@ -298,6 +298,9 @@ func (in *Interp) constVal(c *ssa.Const) Value {
 		case b.Info()&types.IsString != 0:
 			return mkStr(constant.StringVal(c.Value))
 		case b.Info()&types.IsFloat != 0:
+			if f, ok := constant.Float64Val(c.Value); ok && b.Kind() != types.Float32 {
+				return in.floatConst(f)
+			}
 			return Value{K: KOpaque, R: poison("float const")}
 		}
 	}
@@ -632,6 +635,10 @@ func (in *Interp) step(g *G) {
 			return
 		}
 		if len(ch.buf) >= ch.cap {
+			if p := in.chanPartner(g, ch, false); ch.cap == 0 && p != nil {
+				in.handOver(ch, p, copyVal(in.get(fr, ins.X)))
+				return
+			}
 			fr.pc--
 			g.block = "chan send"
 			return
